@@ -364,6 +364,7 @@ impl World {
         let rep = eng!("valid_actions", self.gs.valid_actions());
         let ns = strs(&norep);
         let rs = strs(&rep);
+        ctx.stats.max("max.offered_list_length", rep.len() as u64);
         for s in &ns {
             ctx.observe({
                 let mut f = Fp::new();
